@@ -29,7 +29,7 @@ CFG = {
         "Swat4.C09.C09_reader_finishes",
         "Swat4.C09.Example.init_s0",
     ],
-    "shards": (1, 16),
+    "shards": (4, 16),
     "nontrivial": _c09_nontrivial,
     "rule": "random command-level schedules of 2-3 registry calls (add/update/remove x refuse/accept/merge/over resolvers x "
             "stale/current/future caller versions, optionally a Filter reader) on one or two addresses (the first two "
